@@ -21,9 +21,9 @@ def describe(e):
 def run(ctx):
     ctx.model_check("MC_Varint", ctx.pick("MC_Varint.cfg", "MC_Varint_thorough.cfg"))
     ctx.build_harness()
-    n, files = ctx.record_and_validate("varint", "Trace_Varint", case_fields, describe)
-    evs = vlib.read_events(files[:1], 4000)
-    distinct = len({vlib.json.dumps(case_fields(e), sort_keys=True) for f in files for e in vlib.read_events([f])})
+    n, files, cases = ctx.record_and_validate("varint", "Trace_Varint",
+                                               describe=lambda e, c: "quicwire result differs from Varint.tla for %s" % vlib.json.dumps(c))
+    distinct = len({vlib.json.dumps(c, sort_keys=True) for c in cases})
     return ctx.finish({
         "traces_validated_against_impl": n,
         "evaluations": n,
@@ -31,7 +31,7 @@ def run(ctx):
         "rule": "one event = one value through AppendVarint/SizeVarint/ConsumeVarint(+Int64), or one input string "
                 "through all five Consume* decoders, or one string through Append/Consume*Bytes; distinct = distinct "
                 "(op, inputs); every event is non-trivial (its results are recomputed by Varint.tla)",
-        "samples": [case_fields(e) for e in vlib.sample(evs, 4)],
+        "samples": vlib.sample(cases, 4),
         "exhaustive": False,
         "exhaustive_part": "values 0..%d and all 1-byte inputs exhaustively on the code; laws exhaustively on the spec domain" % (2**17 + 3 if ctx.thorough else 2**14 + 63),
     }, [
@@ -41,16 +41,4 @@ def run(ctx):
 
 
 def replay(ctx, path):
-    obj = vlib.json.load(open(path))
-    ctx.build_harness()
-    cases = vlib.os.path.join(ctx.scratch, "replay-cases.ndjson")
-    with open(cases, "w") as fh:
-        fh.write(vlib.json.dumps(obj["case"]) + "\n")
-    f = ctx.record("varint", shards=1, infile=cases, tag="replay")
-    n, rej = ctx.validate("Trace_Varint", f)
-    if rej:
-        print("VIOLATION property=%s replay=%s" % (ctx.prop, path))
-        print("  " + describe(rej[0][2]))
-        return 1
-    print("replayed case is accepted by the specification on the current tree")
-    return 0
+    return ctx.replay_case(path, "varint", "Trace_Varint")
